@@ -15,8 +15,10 @@ fn main() {
         "C03" => run_check(c03::C03, &args),
         "C04" => run_check(c04::C04, &args),
         "C05" => run_check(c05::C05, &args),
+        "C12" => run_check(c12::C12, &args),
         "C14" => run_check(c14::C14, &args),
         "C16" => run_check(c16::C16, &args),
+        "C20" => run_check(c20::C20, &args),
         other => {
             eprintln!("unknown property {}", other);
             2
